@@ -34,7 +34,7 @@ PROPS = {
     "C03": P(["lifecycle", "fee", "paystate", "provider"],
              "Proof (Verus): the single pay call site requires fee_rhs(policy, amount) <= held total, max_fee <= held total (as read at initiation) - amount, the amount rule, the invoice of this hash, and that the counted HTLCs are still unanswered.",
              LIFE_NOTE, assumptions=A_WORLD + ["sum of simultaneously held HTLC amounts < 2^64 msat"]),
-    "C04": P(["lifecycle", "handle", "provider"],
+    "C04": P(["lifecycle", "handle", "provider", "height"],
              "Proof (Verus): at the pay call site max_cltv_delta <= max(0, min expiry of the HTLCs held at initiation - height returned by current_height() - cltv_delta) and <= policy delta; the arithmetic of src/htlc_manager.rs:576-583 is verified in place.",
              LIFE_NOTE, assumptions=A_WORLD),
     "C05": P(["lifecycle", "store", "provider"],
@@ -80,6 +80,11 @@ PROPS["C16"] = P(["provider"],
     "Proof (Verus): PayPaymentProvider::pay verbatim against the node model of env/cln_pay.rs (COMPLETE => preimage of a completed part; FAILED without partial-completion warning => nothing live; PENDING / FAILED+warning / RPC error => nothing known) and wait_payment's contract: Ok(p) only with the preimage of a completed part; Err only when nothing is pending or complete -- except at the three exits of known finding F-C16-a. The PayRequest handed to the node carries maxfee/maxdelay/amount/bolt11 verbatim and no other fee knob (C03/C04).",
     "Trusted: " + TB_COMMON + " env/cln_pay.rs (pay status semantics; a pay RPC that has returned creates no further parts); wait_payment enters under its interface contract (C15).",
     assumptions=A_WORLD + ["a pay command that has returned (result or RPC error) creates no further parts"])
+
+PROPS["C20"] = P(["height"],
+    "Proof (Verus): update_height leaves the shared cell at max(value found under the lock, new height) = the maximum of all heights told so far, never lower than before; new_block, poll_height and current_height reach the cell only through update_height / a read under the same mutex. Holds under every interleaving because the update is one critical section and every other updater guarantees the same postcondition. The catch-up bound is not applicable.",
+    "Trusted: " + TB_COMMON + " env/height_env.rs (tokio Mutex<u32>: exclusive access; other holders only run update_height). NOT APPLICABLE clause: 'catches up within one poll interval' (timer liveness).",
+    assumptions=["only the functions of block_watcher.rs write the height cell (field is private to the module)"])
 
 PROPS["C18"] = P(["tlv_dec"],
     "Proof (Verus, unbounded loop invariant): get_compact_size, SerializedTlvStream::from_bytes and try_from(Vec<u8>) as extracted from src/tlv.rs are total (every bytes::Buf getter's remaining-length precondition is discharged: no panic on any byte string) and return exactly parse(bytes) of the BigSize/TLV spec functions in specs/tlv_spec.rs.",
